@@ -229,7 +229,14 @@ impl Linker {
         // changed. We want inputs-changed errors to take precedence over all other errors.
         let result = self.load_inputs_and_link::<P, A>(&mut file_loader, args);
 
-        file_loader.verify_inputs_unchanged()?;
+        if let Err(error) = file_loader.verify_inputs_unchanged() {
+            if result.is_ok() {
+                // We wrote an output file, but from inputs that changed while we were reading
+                // them. Don't leave it behind.
+                file_writer::remove_output_after_error(args.output());
+            }
+            return Err(error);
+        }
 
         // Write the dependency file and inputs trace after successful linking.
         if result.is_ok() {
@@ -333,15 +340,24 @@ impl Linker {
             &layout_rules,
         )?;
 
-        let layout = layout::compute::<P, A>(
+        let layout = match layout::compute::<P, A>(
             symbol_db,
             per_symbol_flags,
             resolved,
             output_sections,
             &mut output,
-        )?;
+        ) {
+            Ok(layout) => layout,
+            Err(error) => {
+                output.discard_after_error();
+                return Err(error);
+            }
+        };
 
-        P::write_output_file::<A>(&output, &layout)?;
+        if let Err(error) = P::write_output_file::<A>(&output, &layout) {
+            output.discard_after_error();
+            return Err(error);
+        }
         diff::maybe_diff()?;
 
         // We've finished linking. We consider everything from this point onwards as shutdown.
